@@ -66,4 +66,11 @@ CHECKS = {
         technique="runtime monitoring: self-identifying observations + snapshot-table probe + per-site aggregate oracle under random interleavings",
         ref="DESIGN.md section 4 C14",
     ),
+    "C17": dict(
+        level="exploration",
+        text="Generated test bodies compare mutable objects (list/dict/set/dataclass/attrs/nested) and mutate them after the comparison, between repeated comparisons, through an alias, inside nested elements or in a helper; the body logs copy.deepcopy(value) right before each comparison. After a create / fix+trim run of the real code the rewritten argument is plain-evaluated and compared with the model aggregate of those logged copies. Classes whose deep copy is unequal or never equal must produce UsageError in every operation, must not crash session end and must not be written.",
+        note="The aliasing-free model is the test body's own deep copy at comparison time.",
+        technique="runtime monitoring: in-body deep-copy event log vs evaluated written value under mutation schedules",
+        ref="DESIGN.md section 4 C17",
+    ),
 }
